@@ -12,6 +12,12 @@ theorem getD_setIf (tbl : Array Bool) (i j : Nat) (v : Bool) (h : i < tbl.size) 
   · have : ¬ i = j := fun e => hji e.symm
     simp [this, hji]
 
+theorem setIfInBounds_oob (tbl : Array Bool) (id : Nat) (hge : tbl.size ≤ id) : tbl.setIfInBounds id false = tbl := by
+  unfold Array.setIfInBounds
+  split
+  · omega
+  · rfl
+
 /-- the fused monitor of the driver is `specCheck` applied to the model's trace -/
 theorem seqMon_eq (cap : Nat) (ops : List Op) : ∀ (sh : Shared) (tbl : Array Bool) (cnt : Nat),
     seqMon cap sh tbl cnt ops = specCheck cap { tbl := tbl, cnt := cnt } (seqTrace sh ops) := by
@@ -132,7 +138,7 @@ theorem specInv_step {n : Nat} (hn : 0 < n) {sh : Shared} {tbl : Array Bool} {cn
         have htb : tbl.getD id false = false := by rw [hI.tblOk id hlt, hb]; simp
         refine ⟨{ tbl := tbl.setIfInBounds id false, cnt := cnt }, ?_, hav, ?_⟩
         · simp only [specStep]
-          rw [if_pos ⟨hlt, htb.symm⟩]; simp
+          rw [if_pos htb.symm]; simp
         · refine ⟨hlen, by simpa using hI.size, hI.reserved, ?_, hI.count, hI.inuse⟩
           intro x hx
           rw [getD_setIf _ _ _ _ (by rw [hI.size]; exact hlt), hI.tblOk x hx]
@@ -150,7 +156,7 @@ theorem specInv_step {n : Nat} (hn : 0 < n) {sh : Shared} {tbl : Array Bool} {cn
         simp only [hlt, ↓reduceIte] at hcnt
         refine ⟨{ tbl := tbl.setIfInBounds id false, cnt := cnt - 1 }, ?_, ?_, ?_⟩
         · simp only [specStep, if_neg hpos]
-          rw [if_pos ⟨hlt, htb.symm⟩]; simp
+          rw [if_pos htb.symm]; simp
         · simp only [available, length_clrBit, hlen, hI.inuse]; omega
         · refine ⟨by simpa [length_clrBit] using hlen, by simpa using hI.size, ?_, ?_, ?_, ?_⟩
           · have : (0 : Nat) ≠ id := fun e => hid0 e.symm
@@ -163,9 +169,14 @@ theorem specInv_step {n : Nat} (hn : 0 < n) {sh : Shared} {tbl : Array Bool} {cn
           · simp only []; omega
           · simp only []; have := hI.inuse; omega
     · rw [clear_oob sh id hr]
-      refine ⟨{ tbl := tbl, cnt := cnt }, ?_, hav, hI⟩
-      simp only [specStep]
-      rw [if_pos (by omega)]
+      have hge : tbl.size ≤ id := by rw [hI.size]; omega
+      have htb : tbl.getD id false = false := by
+        rw [Array.getD_eq_getD_getElem?, Array.getElem?_eq_none hge]; rfl
+      have hset : tbl.setIfInBounds id false = tbl := setIfInBounds_oob tbl id hge
+      refine ⟨{ tbl := tbl.setIfInBounds id false, cnt := cnt }, ?_, hav, ?_⟩
+      · simp only [specStep]
+        rw [if_pos htb.symm]; simp
+      · simp only [hset]; exact hI
 
 /-- all op sequences -/
 theorem specInv_run {n : Nat} (hn : 0 < n) (ops : List Op) (hops : ∀ op, op ∈ ops → op ≠ .clear 0) :
